@@ -54,11 +54,11 @@ func (e *Engine) verifyUnit(fn *ssa.Function, ct *FuncContract, alias []string, 
 		bind = append(bind, v)
 	}
 	for _, g := range ct.Ghost {
-		srt := "Int"
-		if g.Type == "bool" {
-			srt = "Bool"
-		}
-		fr.ghostLoc[g.Name] = srt
+		sp := e.synth(ct.PkgPath)
+		sig := e.checkSig(sp, "func(x "+g.Type+") bool", ct.Src)
+		gt := sig.Params().At(0).Type()
+		fr.ghostLoc[g.Name] = vc.sortOf(gt)
+		fr.ghostTyp[g.Name] = gt
 	}
 	fr.onEntry = func(st *State) {
 		for _, g := range ct.Ghost {
@@ -69,6 +69,7 @@ func (e *Engine) verifyUnit(fn *ssa.Function, ct *FuncContract, alias []string, 
 				st.ghost["local:"+g.Name] = t
 			} else {
 				st.ghost["local:"+g.Name] = vc.freshConst("ghost_"+g.Name, fr.ghostLoc[g.Name])
+				vc.assumeTyped(st, st.ghost["local:"+g.Name], fr.ghostTyp[g.Name])
 			}
 		}
 		fr.entry = st.clone()
@@ -158,30 +159,36 @@ func (e *Engine) verifyUnit(fn *ssa.Function, ct *FuncContract, alias []string, 
 	return u
 }
 
-// frameObligations: nothing outside the modifies clause changed.
-func (x *Exec) frameObligations(fr *Frame, fin *State, unit, suffix string) {
+type frameAllow struct {
+	objs   []string
+	fields map[string][][]sel
+	ptrs   []string
+}
+
+type frameSpec struct {
+	allowed map[string]*frameAllow
+	mapOK   map[string]bool
+	allKeys map[string]bool
+}
+
+// frameSpecOf evaluates the modifies clause of the function under
+// verification in its entry state.
+func (x *Exec) frameSpecOf(fr *Frame) *frameSpec {
+	if fr.fspec != nil {
+		return fr.fspec
+	}
 	vc := x.vc
 	ct := fr.ct
 	ent := fr.entry
-	if fin.epoch != ent.epoch {
-		vc.oblige(fmt.Sprintf("%s/frame:havoc%s", unit, suffix), "frame", unit, ct.Src, "an uncontracted call may modify memory outside the modifies clause", fin.pc, "false")
-		return
-	}
-	type allow struct {
-		objs   []string            // whole objects
-		fields map[string][][]sel  // ptr -> paths
-		ptrs   []string
-	}
-	allowed := map[string]*allow{}
-	get := func(k string) *allow {
-		a := allowed[k]
+	fs := &frameSpec{allowed: map[string]*frameAllow{}, mapOK: map[string]bool{}, allKeys: map[string]bool{}}
+	get := func(k string) *frameAllow {
+		a := fs.allowed[k]
 		if a == nil {
-			a = &allow{fields: map[string][][]sel{}}
-			allowed[k] = a
+			a = &frameAllow{fields: map[string][][]sel{}}
+			fs.allowed[k] = a
 		}
 		return a
 	}
-	mapOK := map[string]bool{}
 	ctx := x.ownCtx(fr, ent, false)
 	ctx.src = ct.Src
 	for _, m := range ct.Modifies {
@@ -189,7 +196,21 @@ func (x *Exec) frameObligations(fr *Frame, fin *State, unit, suffix string) {
 		if i := strings.Index(m, "("); i > 0 && strings.HasSuffix(m, ")") {
 			name := strings.TrimSpace(m[:i])
 			if srt, ok := x.eng.ghostFields[name]; ok {
-				obj, _ := ctx.evalText(m[i+1 : len(m)-1])
+				obj, ot := ctx.evalText(m[i+1 : len(m)-1])
+				// a ghost field *defined* on this concrete type stands for the object itself
+				if g := x.eng.gfields[ct.PkgPath+" "+name]; g != nil && pointee(ot) != nil {
+					isDef := false
+					for _, d := range g.Defs {
+						if types.Identical(d.sig.Params().At(0).Type(), ot) {
+							isDef = true
+						}
+					}
+					if isDef {
+						k := vc.heapKey("H", pointee(ot))
+						get(k).objs = append(get(k).objs, obj)
+						continue
+					}
+				}
 				k := vc.ghostHeapKey(name, fmt.Sprintf("(Array Int %s)", srt))
 				get(k).objs = append(get(k).objs, obj)
 				continue
@@ -209,44 +230,71 @@ func (x *Exec) frameObligations(fr *Frame, fin *State, unit, suffix string) {
 		case "object", "elems":
 			get(lv.key).objs = append(get(lv.key).objs, lv.ptr)
 		case "map":
-			mapOK[typeKey(lv.typ)] = true
+			fs.mapOK[typeKey(lv.typ)] = true
+		case "heapkey":
+			fs.allKeys[lv.key] = true
 		}
 	}
+	fr.fspec = fs
+	return fs
+}
+
+// frameGoal: every object of heap k that existed at entry and is not named
+// in the modifies clause has its entry value in state cur.  "" = no obligation.
+func (x *Exec) frameGoal(fr *Frame, k string, cur *State) string {
+	vc := x.vc
+	fs := x.frameSpecOf(fr)
+	ent := fr.entry
+	curT := vc.heapGet(cur, k)
+	old := vc.heapGet(ent, k)
+	if curT == old || fs.allKeys[k] {
+		return ""
+	}
+	if strings.HasPrefix(k, "M") {
+		tk := k[strings.Index(k, "|")+1:]
+		if fs.mapOK[tk] {
+			return ""
+		}
+	}
+	a := fs.allowed[k]
+	q := vc.fresh("p")
+	var excl []string
+	excl = append(excl, fmt.Sprintf("(< 0 %s)", q), fmt.Sprintf("(< %s %s)", q, ent.alloc))
+	if a != nil {
+		for _, o := range a.objs {
+			excl = append(excl, fmt.Sprintf("(not (= %s %s))", q, o))
+		}
+		for _, p := range a.ptrs {
+			excl = append(excl, fmt.Sprintf("(not (= %s %s))", q, p))
+		}
+	}
+	goal := fmt.Sprintf("(forall ((%s Int)) (! (=> (and %s) (= (select %s %s) (select %s %s))) :pattern ((select %s %s))))", q, strings.Join(excl, " "), curT, q, old, q, curT, q)
+	if a != nil {
+		for _, p := range a.ptrs {
+			obj := fmt.Sprintf("(select %s %s)", curT, p)
+			oobj := fmt.Sprintf("(select %s %s)", old, p)
+			for _, path := range a.fields[p] {
+				obj = x.updatePath(obj, path, x.applyPath(oobj, path))
+			}
+			goal = fmt.Sprintf("(and %s (= %s %s))", goal, obj, oobj)
+		}
+	}
+	return goal
+}
+
+// frameObligations: nothing outside the modifies clause changed.
+func (x *Exec) frameObligations(fr *Frame, fin *State, unit, suffix string) {
+	vc := x.vc
+	ct := fr.ct
+	ent := fr.entry
+	if fin.epoch != ent.epoch {
+		vc.oblige(fmt.Sprintf("%s/frame:havoc%s", unit, suffix), "frame", unit, ct.Src, "an uncontracted call may modify memory outside the modifies clause", fin.pc, "false")
+		return
+	}
 	for _, k := range sortedKeys(fin.heap) {
-		cur := fin.heap[k]
-		old := vc.heapGet(ent, k)
-		if cur == old {
+		goal := x.frameGoal(fr, k, fin)
+		if goal == "" {
 			continue
-		}
-		if strings.HasPrefix(k, "M") {
-			tk := k[strings.Index(k, "|")+1:]
-			if mapOK[tk] {
-				continue
-			}
-		}
-		a := allowed[k]
-		q := vc.fresh("p")
-		var excl []string
-		excl = append(excl, fmt.Sprintf("(< 0 %s)", q), fmt.Sprintf("(< %s %s)", q, ent.alloc))
-		if a != nil {
-			for _, o := range a.objs {
-				excl = append(excl, fmt.Sprintf("(not (= %s %s))", q, o))
-			}
-			for _, p := range a.ptrs {
-				excl = append(excl, fmt.Sprintf("(not (= %s %s))", q, p))
-			}
-		}
-		goal := fmt.Sprintf("(forall ((%s Int)) (=> (and %s) (= (select %s %s) (select %s %s))))", q, strings.Join(excl, " "), cur, q, old, q)
-		if a != nil {
-			for _, p := range a.ptrs {
-				// the listed fields put back to their old values gives the old object
-				obj := fmt.Sprintf("(select %s %s)", cur, p)
-				oobj := fmt.Sprintf("(select %s %s)", old, p)
-				for _, path := range a.fields[p] {
-					obj = x.updatePath(obj, path, x.applyPath(oobj, path))
-				}
-				goal = fmt.Sprintf("(and %s (= %s %s))", goal, obj, oobj)
-			}
 		}
 		vc.oblige(fmt.Sprintf("%s/frame:%s%s", unit, vc.heapNames[k], suffix), "frame", unit, ct.Src, "only locations in the modifies clause change ("+strings.SplitN(k, "|", 2)[1]+")", fin.pc, goal)
 	}
